@@ -18,6 +18,9 @@ DEFAULT_TIMEOUT_MS = 20000
 STATS = {"z3_calls": 0, "z3_s": 0.0, "cvc5_calls": 0, "cvc5_s": 0.0}
 
 
+INT_VARS = set()
+
+
 class Z3Enc:
     def __init__(self):
         self.memo = {}
@@ -29,7 +32,8 @@ class Z3Enc:
     def var(self, name):
         v = self.names.get(name)
         if v is None:
-            v = z3.Real(name)
+            # integer-valued symbols (declared by a contract in INT_VARS) are integer constants seen as reals
+            v = z3.ToReal(z3.Int(name)) if name in INT_VARS else z3.Real(name)
             self.names[name] = v
         return v
 
